@@ -1,6 +1,6 @@
 /-
-  C09 (sequential_unroll, cycle-accurate semantics): why `CG.C09.SeqGood` has the fields `outsOrdinary` and `noClash`
-  and why `sequential_unroll_sem` / `sequential_unroll_complete` carry the hypothesis `hig`.
+  C09 (sequential_unroll, cycle-accurate semantics): why `CG.C09.SeqGood` has the field `outsOrdinary` and why
+  `sequential_unroll_sem` / `sequential_unroll_complete` carry the hypotheses `hig` and `hclash`.
 
   For each of the three additions there is a closed sequential circuit that satisfies the ORIGINAL hypotheses
   (`SeqGoodOrig`, the eight original fields of `SeqGood`) and the two other additions, on which `sequential_unroll`
@@ -10,11 +10,19 @@
 
   * `Pin`  (`outsOrdinary` dropped): the flop's d and clk pins are marked as outputs.  Pins are renamed/removed before `unroll`, so
            the io map has no entry `f.d` and `ioName ioMap "f.d" t` is the empty name, which nothing constrains.
-  * `Clk`  (`noClash` dropped): `ignore_pins = ["clk"]` and an unrelated constant node is called `f_clk`.
-           `sequential_unroll` removes the non-data pins by their exposed names after stripping; the ignored pin is
-           already gone, so the unrelated node `f_clk` is deleted and the `and` gate it fed computes something else.
+  * `Dot`  (`hclash` dropped): the instance is called `a.b`, so its pins are exposed as `a_b_clk`, `a_b_d`, `a_b_q`, while
+           `sequential_unroll` computes the names `a.b_clk`, `a.b_d`, `a.b_q`.  Unrelated nodes of these names pass for
+           the flop: `a.b_d`/`a.b_q` are wired up as the state pair and the io map reports the value of the node
+           `a.b_d` as the flop's data input (a node `a.b_clk` would be deleted from the logic).  For dot-free instance
+           and pin names a clash with an exposed pin already makes `strip_blackboxes` fail (fix K32).
   * `Ign`  (`hig` dropped): the data pin `d_x` is ignored while another input pin `d.x` is exposed as `a_d_x`; that pin is
            then taken for the data pin.
+
+  `Clk` is no counterexample any more but a regression example: `ignore_pins = ["clk"]` and an unrelated constant node
+  called `f_clk`.  `sequential_unroll` used to remove ALL non-data pins by their exposed names after stripping; the
+  ignored pin is deleted by `strip_blackboxes`, never exposed, so the unrelated node `f_clk` was deleted and the `and`
+  gate it fed computed something else.  This is fixed in the library (K39): ignored pins are skipped, the node stays,
+  and the former hypothesis `noClash` (no node called `inst_pin` for ANY pin) is weakened to `hclash` (exposed pins only).
   (This file imports the property file and is therefore not part of the hub `CG/Proofs/UnrollSeqSem.lean`.)
 -/
 import CG.Props.C09
@@ -35,14 +43,22 @@ structure SeqGoodOrig (c : Circuit) (bb : BBox) (dPort qPort : Name) : Prop wher
     ∃ u ∈ c.bbs, ∃ g ∈ bb.ins ++ bb.outs, x = u.1 ++ "." ++ g
 
 @[reducible] def OutsOrdinary (c : Circuit) : Prop := ∀ o ∈ c.outputs, C06.isPin c o = false
-@[reducible] def NoClash (c : Circuit) (bb : BBox) : Prop := ∀ u ∈ c.bbs, ∀ g ∈ bb.ins ++ bb.outs, c.has (u.1 ++ "_" ++ g) = false
+/-- the hypothesis `hclash` of the two theorems: no node is called like an exposed (= not ignored) pin -/
+@[reducible] def NoClash (c : Circuit) (bb : BBox) (ignore : List Name) : Prop :=
+  ∀ u ∈ c.bbs, ∀ g ∈ bb.ins ++ bb.outs, g ∉ ignore → c.has (u.1 ++ "_" ++ g) = false
+/-- the former field `SeqGood.noClash` (before the library fix K39): no node is called like ANY pin -/
+@[reducible] def NoClashOld (c : Circuit) (bb : BBox) : Prop :=
+  ∀ u ∈ c.bbs, ∀ g ∈ bb.ins ++ bb.outs, c.has (u.1 ++ "_" ++ g) = false
 
-/-- the new `SeqGood` is the original one plus the two added fields -/
+/-- the old hypothesis implies the new one, for every `ignore_pins` -/
+theorem noClash_of_old {c : Circuit} {bb : BBox} (h : NoClashOld c bb) (ignore : List Name) : NoClash c bb ignore :=
+  fun u hu g hg _ => h u hu g hg
+
+/-- the new `SeqGood` is the original one plus the added field -/
 theorem seqGood_iff (c : Circuit) (bb : BBox) (d q : Name) :
-    SeqGood c bb d q ↔ SeqGoodOrig c bb d q ∧ OutsOrdinary c ∧ NoClash c bb :=
-  ⟨fun h => ⟨⟨h.clean, h.nonempty, h.oneType, h.instNodup, h.dIn, h.qOut, h.pinsPresent, h.pinsOwned⟩, h.outsOrdinary,
-      h.noClash⟩,
-   fun ⟨h, a, b⟩ => ⟨h.clean, h.nonempty, h.oneType, h.instNodup, h.dIn, h.qOut, h.pinsPresent, h.pinsOwned, a, b⟩⟩
+    SeqGood c bb d q ↔ SeqGoodOrig c bb d q ∧ OutsOrdinary c :=
+  ⟨fun h => ⟨⟨h.clean, h.nonempty, h.oneType, h.instNodup, h.dIn, h.qOut, h.pinsPresent, h.pinsOwned⟩, h.outsOrdinary⟩,
+   fun ⟨h, a⟩ => ⟨h.clean, h.nonempty, h.oneType, h.instNodup, h.dIn, h.qOut, h.pinsPresent, h.pinsOwned, a⟩⟩
 
 /-- the conclusion of `sequential_unroll_sem` -/
 def IsRun (c : Circuit) (n : Nat) (d q : Name) (initStr : Option String) (ioMap : List (Name × List Name)) (v : Val) : Prop :=
@@ -99,6 +115,11 @@ theorem and1_eq {uc : Circuit} {v : Val} (hv : Consistent uc v) (x y : Name) (ht
   rw [hf]
   simp [gateFn]
 
+theorem zero_eq {uc : Circuit} {v : Val} (hv : Consistent uc v) (x : Name) (hty : uc.ty? x = some "0") : v x = false := by
+  obtain ⟨a, ha, hta⟩ := USS.mem_of_ty? hty
+  apply hv (x, a) ha "0" hta
+  simp [gateFn]
+
 theorem one_eq {uc : Circuit} {v : Val} (hv : Consistent uc v) (x : Name) (hty : uc.ty? x = some "1") : v x = true := by
   obtain ⟨a, ha, hta⟩ := USS.mem_of_ty? hty
   apply hv (x, a) ha "1" hta
@@ -113,7 +134,7 @@ def c : Circuit :=
     edges := [("clk", "f.clk"), ("z", "f.d"), ("f.q", "q")],
     bbs := [("f", ff)] }
 
-theorem good : SeqGoodOrig c ff "d" "q" ∧ NoClash c ff ∧ ¬ OutsOrdinary c := by
+theorem good : SeqGoodOrig c ff "d" "q" ∧ NoClash c ff [] ∧ ¬ OutsOrdinary c := by
   refine ⟨⟨Limit.lintClean_of_checks c ⟨by decide, by decide, by decide⟩ (by decide) (by decide) (by decide),
     by decide, by decide, by decide, by decide, by decide, by decide, ?_⟩, by decide, by decide⟩
   intro x hx
@@ -168,7 +189,7 @@ end Pin
 
 /-- `sequential_unroll_sem` is false without `outsOrdinary` (all other hypotheses, old and new, hold) -/
 theorem sequential_unroll_sem_needs_outsOrdinary :
-    ∃ c bb n d q ignore afo initStr ru pfx ord uc ioMap v, OrdOK ord ∧ SeqGoodOrig c bb d q ∧ NoClash c bb ∧
+    ∃ c bb n d q ignore afo initStr ru pfx ord uc ioMap v, OrdOK ord ∧ SeqGoodOrig c bb d q ∧ NoClash c bb ignore ∧
       (d ∉ ignore ∧ q ∉ ignore) ∧ (∀ s, initStr = some s → s = "0" ∨ s = "1") ∧
       Tx.sequentialUnroll c n d q ignore afo initStr [] ru pfx ord = .ok (uc, ioMap) ∧ Consistent uc v ∧
       ¬ IsRun c n d q initStr ioMap v :=
@@ -177,7 +198,7 @@ theorem sequential_unroll_sem_needs_outsOrdinary :
 
 /-- `sequential_unroll_complete` is false without `outsOrdinary` -/
 theorem sequential_unroll_complete_needs_outsOrdinary :
-    ∃ c bb n d q ignore afo initStr ru pfx ord uc ioMap w, OrdOK ord ∧ SeqGoodOrig c bb d q ∧ NoClash c bb ∧
+    ∃ c bb n d q ignore afo initStr ru pfx ord uc ioMap w, OrdOK ord ∧ SeqGoodOrig c bb d q ∧ NoClash c bb ignore ∧
       (d ∉ ignore ∧ q ∉ ignore) ∧ (∀ s, initStr = some s → s = "0" ∨ s = "1") ∧
       Tx.sequentialUnroll c n d q ignore afo initStr [] ru pfx ord = .ok (uc, ioMap) ∧ SeqRun c d q n w ∧
       (∀ s, initStr = some s → ∀ u ∈ c.bbs, w 0 (u.1 ++ "." ++ q) = (s == "1")) ∧
@@ -185,16 +206,18 @@ theorem sequential_unroll_complete_needs_outsOrdinary :
   ⟨Pin.c, ff, 1, "d", "q", [], false, none, true, "cg_unroll", id, Pin.uc, Pin.ioMap, fun _ => Pin.w, ordOK_id, Pin.good.1,
     Pin.good.2.1, by decide, (fun s hs => by cases hs), Pin.ok, Pin.run, (fun s hs => by cases hs), Pin.not_shown⟩
 
-/-! ### `noClash` -/
-namespace Clk
+/-! ### `hclash` -/
+namespace Dot
 
+/-- the instance is called `a.b`; the unrelated nodes `a.b_d` (a constant 0, marked as output) and `a.b_q` (an input)
+    carry the names `sequential_unroll` computes for the data pins -/
 def c : Circuit :=
-  { nodes := [("a", A "input"), ("f_clk", A "0"), ("o", A "and" true), ("clk", A "input"), ("f.clk", A "bb_input"),
-              ("f.d", A "bb_input"), ("f.q", A "bb_output"), ("q", A "buf" true)],
-    edges := [("clk", "f.clk"), ("a", "f.d"), ("f.q", "q"), ("a", "o"), ("f_clk", "o")],
-    bbs := [("f", ff)] }
+  { nodes := [("z", A "1"), ("clk", A "input"), ("a.b.clk", A "bb_input"), ("a.b.d", A "bb_input"),
+              ("a.b.q", A "bb_output"), ("q", A "buf" true), ("a.b_d", A "0" true), ("a.b_q", A "input")],
+    edges := [("clk", "a.b.clk"), ("z", "a.b.d"), ("a.b.q", "q")],
+    bbs := [("a.b", ff)] }
 
-theorem good : SeqGoodOrig c ff "d" "q" ∧ OutsOrdinary c ∧ ¬ NoClash c ff := by
+theorem good : SeqGoodOrig c ff "d" "q" ∧ OutsOrdinary c ∧ ¬ NoClash c ff [] := by
   refine ⟨⟨Limit.lintClean_of_checks c ⟨by decide, by decide, by decide⟩ (by decide) (by decide) (by decide),
     by decide, by decide, by decide, by decide, by decide, by decide, ?_⟩, by decide, by decide⟩
   intro x hx
@@ -204,75 +227,162 @@ theorem good : SeqGoodOrig c ff "d" "q" ∧ OutsOrdinary c ∧ ¬ NoClash c ff :
   revert x
   decide
 
-def res := Tx.sequentialUnroll c 1 "d" "q" ["clk"] false none [] true "cg_unroll" id
+def res := Tx.sequentialUnroll c 1 "d" "q" [] false none [] true "cg_unroll" id
 def uc : Circuit := (res.toOption.map (·.1)).getD {}
 def ioMap : List (Name × List Name) := (res.toOption.map (·.2)).getD []
 
-theorem ok : Tx.sequentialUnroll c 1 "d" "q" ["clk"] false none [] true "cg_unroll" id = .ok (uc, ioMap) := by
+theorem ok : Tx.sequentialUnroll c 1 "d" "q" [] false none [] true "cg_unroll" id = .ok (uc, ioMap) := by
   have h : res.toOption.isSome = true := by decide +kernel
   unfold uc ioMap
   unfold res at h ⊢
-  cases hr : Tx.sequentialUnroll c 1 "d" "q" ["clk"] false none [] true "cg_unroll" id with
+  cases hr : Tx.sequentialUnroll c 1 "d" "q" [] false none [] true "cg_unroll" id with
   | error e => rw [hr] at h; cases h
   | ok r => rfl
 
-theorem cons : Consistent uc vTrue := consistentB_sound _ _ (by decide +kernel)
+/-- everything true except the empty name, the copy of the constant `a.b_d` and the io node it drives -/
+def v : Val := fun n => n != "" && n != "unrolled_0_a.b_d" && n != "a.b_d_cg_unroll_0"
 
-theorem not_run : ¬ IsRun c 1 "d" "q" none ioMap vTrue := by
-  rintro ⟨w, ⟨hw, _⟩, hA, _, _⟩
+theorem cons : Consistent uc v := consistentB_sound _ _ (by decide +kernel)
+
+theorem not_run : ¬ IsRun c 1 "d" "q" none ioMap v := by
+  rintro ⟨w, ⟨hw, _⟩, _, hB, _⟩
   have h0 := hw 0 (by decide)
-  have hz : w 0 "f_clk" = false := const_val h0 "f_clk" (A "0") "0" false (by decide) rfl (by simp [gateFn])
-  have ho : w 0 "o" = (w 0 "a" && w 0 "f_clk") :=
-    const_val h0 "o" (A "and" true) "and" _ (by decide) rfl
-      (by show gateFn "and" [w 0 "a", w 0 "f_clk"] = _; simp [gateFn])
-  have := hA "o" (by decide) 0 (by decide)
-  have e : Tx.ioName ioMap "o" 0 = "o_cg_unroll_0" := by decide +kernel
-  rw [e, ho, hz] at this
-  simp [vTrue] at this
+  have hz : w 0 "z" = true := const_val h0 "z" (A "1") "1" true (by decide) rfl (by simp [gateFn])
+  have hd : w 0 "a.b.d" = w 0 "z" :=
+    const_val h0 "a.b.d" (A "bb_input") "bb_input" _ (by decide) rfl
+      (by show gateFn "bb_input" [w 0 "z"] = _; simp [gateFn])
+  have := hB ("a.b", ff) (by decide) 0 (by decide)
+  have e : Tx.ioName ioMap ("a.b" ++ "_" ++ "d") 0 = "a.b_d_cg_unroll_0" := by decide +kernel
+  rw [e] at this
+  have e2 : ("a.b" ++ "." ++ "d" : Name) = "a.b.d" := by decide
+  rw [e2, hd, hz] at this
+  simp [v] at this
 
-/-- a run: `a` high, so the flop's data pin is high and `o = a and f_clk` is low -/
-def w : Val := fun n => n == "a" || n == "f.d"
+/-- a run: the flop's data pin is high (driven by the constant `z`) -/
+def w : Val := fun n => n == "z" || n == "a.b.d"
 
 theorem run : SeqRun c "d" "q" 1 (fun _ => w) := run_one (by decide)
 
 theorem not_shown : ¬ IsShown c 1 "d" uc ioMap (fun _ => w) := by
-  rintro ⟨v, hv, hA, hB⟩
-  have h1 := hA "o" (by decide) 0 (by decide)
-  have h2 := hB ("f", ff) (by decide) 0 (by decide)
-  have e1 : Tx.ioName ioMap "o" 0 = "o_cg_unroll_0" := by decide +kernel
-  have e2 : Tx.ioName ioMap ("f" ++ "_" ++ "d") 0 = "f_d_cg_unroll_0" := by decide +kernel
-  rw [e1] at h1
+  rintro ⟨v, hv, _, hB⟩
+  have h2 := hB ("a.b", ff) (by decide) 0 (by decide)
+  have e2 : Tx.ioName ioMap ("a.b" ++ "_" ++ "d") 0 = "a.b_d_cg_unroll_0" := by decide +kernel
   rw [e2] at h2
-  have a1 := buf_eq hv "o_cg_unroll_0" "unrolled_0_o" (by decide +kernel) (by decide +kernel)
-  have a2 := and1_eq hv "unrolled_0_o" "unrolled_0_a" (by decide +kernel) (by decide +kernel)
-  have a3 := buf_eq hv "f_d_cg_unroll_0" "unrolled_0_f_d" (by decide +kernel) (by decide +kernel)
-  have a4 := buf_eq hv "unrolled_0_f_d" "unrolled_0_a" (by decide +kernel) (by decide +kernel)
-  rw [a1, a2] at h1
-  rw [a3, a4, h1] at h2
+  have a1 := buf_eq hv "a.b_d_cg_unroll_0" "unrolled_0_a.b_d" (by decide +kernel) (by decide +kernel)
+  have a2 := zero_eq hv "unrolled_0_a.b_d" (by decide +kernel)
+  rw [a1, a2] at h2
   exact absurd h2 (by decide)
 
-end Clk
+end Dot
 
-/-- `sequential_unroll_sem` is false without `noClash` (all other hypotheses, old and new, hold): with
-    `ignore_pins = ["clk"]` the unrelated node `f_clk` is deleted -/
-theorem sequential_unroll_sem_needs_noClash :
+/-- `sequential_unroll_sem` is false without `hclash` (all other hypotheses, old and new, hold): with an instance
+    called `a.b` the unrelated nodes `a.b_d`, `a.b_q` are wired up as the flop.  In particular `hclash` does not follow
+    from the success of the call. -/
+theorem sequential_unroll_sem_needs_hclash :
     ∃ c bb n d q ignore afo initStr ru pfx ord uc ioMap v, OrdOK ord ∧ SeqGoodOrig c bb d q ∧ OutsOrdinary c ∧
       (d ∉ ignore ∧ q ∉ ignore) ∧ (∀ s, initStr = some s → s = "0" ∨ s = "1") ∧
       Tx.sequentialUnroll c n d q ignore afo initStr [] ru pfx ord = .ok (uc, ioMap) ∧ Consistent uc v ∧
       ¬ IsRun c n d q initStr ioMap v :=
-  ⟨Clk.c, ff, 1, "d", "q", ["clk"], false, none, true, "cg_unroll", id, Clk.uc, Clk.ioMap, vTrue, ordOK_id, Clk.good.1,
-    Clk.good.2.1, by decide, (fun s hs => by cases hs), Clk.ok, Clk.cons, Clk.not_run⟩
+  ⟨Dot.c, ff, 1, "d", "q", [], false, none, true, "cg_unroll", id, Dot.uc, Dot.ioMap, Dot.v, ordOK_id, Dot.good.1,
+    Dot.good.2.1, by decide, (fun s hs => by cases hs), Dot.ok, Dot.cons, Dot.not_run⟩
 
-/-- `sequential_unroll_complete` is false without `noClash` -/
-theorem sequential_unroll_complete_needs_noClash :
+/-- `sequential_unroll_complete` is false without `hclash` -/
+theorem sequential_unroll_complete_needs_hclash :
     ∃ c bb n d q ignore afo initStr ru pfx ord uc ioMap w, OrdOK ord ∧ SeqGoodOrig c bb d q ∧ OutsOrdinary c ∧
       (d ∉ ignore ∧ q ∉ ignore) ∧ (∀ s, initStr = some s → s = "0" ∨ s = "1") ∧
       Tx.sequentialUnroll c n d q ignore afo initStr [] ru pfx ord = .ok (uc, ioMap) ∧ SeqRun c d q n w ∧
       (∀ s, initStr = some s → ∀ u ∈ c.bbs, w 0 (u.1 ++ "." ++ q) = (s == "1")) ∧
       ¬ IsShown c n d uc ioMap w :=
-  ⟨Clk.c, ff, 1, "d", "q", ["clk"], false, none, true, "cg_unroll", id, Clk.uc, Clk.ioMap, fun _ => Clk.w, ordOK_id,
-    Clk.good.1, Clk.good.2.1, by decide, (fun s hs => by cases hs), Clk.ok, Clk.run, (fun s hs => by cases hs),
-    Clk.not_shown⟩
+  ⟨Dot.c, ff, 1, "d", "q", [], false, none, true, "cg_unroll", id, Dot.uc, Dot.ioMap, fun _ => Dot.w, ordOK_id,
+    Dot.good.1, Dot.good.2.1, by decide, (fun s hs => by cases hs), Dot.ok, Dot.run, (fun s hs => by cases hs),
+    Dot.not_shown⟩
+
+/-! ### regression example for K39: a node called like an ignored pin stays -/
+namespace Clk
+
+/-- `ignore_pins = ["clk"]`, and the unrelated constant `f_clk` feeds the output gate `o = a and f_clk` -/
+def c : Circuit :=
+  { nodes := [("a", A "input"), ("f_clk", A "0"), ("o", A "and" true), ("clk", A "input"), ("f.clk", A "bb_input"),
+              ("f.d", A "bb_input"), ("f.q", A "bb_output"), ("q", A "buf" true)],
+    edges := [("clk", "f.clk"), ("a", "f.d"), ("f.q", "q"), ("a", "o"), ("f_clk", "o")],
+    bbs := [("f", ff)] }
+
+/-- all hypotheses of the two theorems hold (the former, stronger `noClash` does not: `f_clk` is a node) -/
+theorem good : SeqGood c ff "d" "q" ∧ NoClash c ff ["clk"] ∧ ¬ NoClashOld c ff := by
+  refine ⟨⟨Limit.lintClean_of_checks c ⟨by decide, by decide, by decide⟩ (by decide) (by decide) (by decide),
+    by decide, by decide, by decide, by decide, by decide, by decide, ?_, by decide⟩, by decide, by decide⟩
+  intro x hx
+  have hm : x ∈ c.nodeNames := by
+    rcases hx with hx | hx <;> exact (Circuit.has_iff_mem _ _).1 (Circuit.has_of_ty? hx)
+  revert hx
+  revert x
+  decide
+
+def res := Tx.sequentialUnroll c 2 "d" "q" ["clk"] false none [] true "cg_unroll" id
+def uc : Circuit := (res.toOption.map (·.1)).getD {}
+def ioMap : List (Name × List Name) := (res.toOption.map (·.2)).getD []
+
+/-- the call succeeds -/
+theorem ok : Tx.sequentialUnroll c 2 "d" "q" ["clk"] false none [] true "cg_unroll" id = .ok (uc, ioMap) := by
+  have h : res.toOption.isSome = true := by decide +kernel
+  unfold uc ioMap
+  unfold res at h ⊢
+  cases hr : Tx.sequentialUnroll c 2 "d" "q" ["clk"] false none [] true "cg_unroll" id with
+  | error e => rw [hr] at h; cases h
+  | ok r => rfl
+
+/-- the unrolled circuit contains the per-step copies of `f_clk` (as constants), and the copies of the output gate `o`
+    still have them in their fan-in (before the fix K39 they were deleted) -/
+theorem f_clk_kept :
+    uc.has "unrolled_0_f_clk" = true ∧ uc.has "unrolled_1_f_clk" = true ∧
+    uc.ty? "unrolled_0_f_clk" = some "0" ∧ uc.ty? "unrolled_1_f_clk" = some "0" ∧
+    uc.fanin "unrolled_0_o" = ["unrolled_0_a", "unrolled_0_f_clk"] ∧
+    uc.fanin "unrolled_1_o" = ["unrolled_1_a", "unrolled_1_f_clk"] ∧
+    Tx.ioName ioMap "o" 0 = "o_cg_unroll_0" ∧ uc.fanin "o_cg_unroll_0" = ["unrolled_0_o"] ∧
+    Tx.ioName ioMap "o" 1 = "o_cg_unroll_1" ∧ uc.fanin "o_cg_unroll_1" = ["unrolled_1_o"] := by decide +kernel
+
+/-- so `sequential_unroll_sem` applies: every consistent valuation of the unrolled circuit is a run of `c` -/
+theorem sem (v : Val) (hv : Consistent uc v) : IsRun c 2 "d" "q" none ioMap v :=
+  sequential_unroll_sem c ff 2 "d" "q" ["clk"] false none true "cg_unroll" id ordOK_id good.1 (by decide) good.2.1
+    (fun s hs => by cases hs) uc ioMap ok v hv
+
+/-- in particular the output `o = a and f_clk` is low in both cycles -/
+theorem o_low (v : Val) (hv : Consistent uc v) : v "o_cg_unroll_0" = false ∧ v "o_cg_unroll_1" = false := by
+  obtain ⟨w, ⟨hw, _⟩, hA, _, _⟩ := sem v hv
+  have low : ∀ t, t < 2 → w t "o" = false := by
+    intro t ht
+    have h0 := hw t ht
+    have hz : w t "f_clk" = false := const_val h0 "f_clk" (A "0") "0" false (by decide) rfl (by simp [gateFn])
+    have ho : w t "o" = (w t "a" && w t "f_clk") :=
+      const_val h0 "o" (A "and" true) "and" _ (by decide) rfl
+        (by show gateFn "and" [w t "a", w t "f_clk"] = _; simp [gateFn])
+    rw [ho, hz]
+    simp
+  have h0 := hA "o" (by decide) 0 (by decide)
+  have h1 := hA "o" (by decide) 1 (by decide)
+  rw [f_clk_kept.2.2.2.2.2.2.1, low 0 (by decide)] at h0
+  rw [f_clk_kept.2.2.2.2.2.2.2.2.1, low 1 (by decide)] at h1
+  exact ⟨h0, h1⟩
+
+/-- and `sequential_unroll_complete` applies: every run of `c` is shown by some consistent valuation -/
+theorem complete (w : Nat → Val) (hw : SeqRun c "d" "q" 2 w) : IsShown c 2 "d" uc ioMap w :=
+  sequential_unroll_complete c ff 2 "d" "q" ["clk"] false none true "cg_unroll" id ordOK_id good.1 (by decide) good.2.1
+    (fun s hs => by cases hs) uc ioMap ok w hw (fun s hs => by cases hs)
+
+end Clk
+
+/-- regression (library fix K39): with `ignore_pins = ["clk"]` an unrelated node `f_clk` violates the former hypothesis
+    `noClash` but not `hclash`; the call succeeds, the node's per-step copies are still in the unrolled circuit and in the
+    fan-in of the output gate, and both C09 theorems hold for this call -/
+theorem sequential_unroll_keeps_ignored_pin_names :
+    SeqGood Clk.c ff "d" "q" ∧ NoClash Clk.c ff ["clk"] ∧ ¬ NoClashOld Clk.c ff ∧
+    Tx.sequentialUnroll Clk.c 2 "d" "q" ["clk"] false none [] true "cg_unroll" id = .ok (Clk.uc, Clk.ioMap) ∧
+    Clk.uc.has "unrolled_0_f_clk" = true ∧ Clk.uc.has "unrolled_1_f_clk" = true ∧
+    "unrolled_0_f_clk" ∈ Clk.uc.fanin "unrolled_0_o" ∧ "unrolled_1_f_clk" ∈ Clk.uc.fanin "unrolled_1_o" ∧
+    (∀ v, Consistent Clk.uc v → IsRun Clk.c 2 "d" "q" none Clk.ioMap v) ∧
+    (∀ w, SeqRun Clk.c "d" "q" 2 w → IsShown Clk.c 2 "d" Clk.uc Clk.ioMap w) :=
+  ⟨Clk.good.1, Clk.good.2.1, Clk.good.2.2, Clk.ok, Clk.f_clk_kept.1, Clk.f_clk_kept.2.1,
+    by rw [Clk.f_clk_kept.2.2.2.2.1]; simp, by rw [Clk.f_clk_kept.2.2.2.2.2.1]; simp, Clk.sem, Clk.complete⟩
 
 /-! ### `hig` -/
 namespace Ign
@@ -285,7 +395,7 @@ def c : Circuit :=
     edges := [("clk", "a.clk"), ("z", "a.d_x"), ("y", "a.d.x"), ("a.q", "q")],
     bbs := [("a", ffx)] }
 
-theorem good : SeqGoodOrig c ffx "d_x" "q" ∧ OutsOrdinary c ∧ NoClash c ffx := by
+theorem good : SeqGoodOrig c ffx "d_x" "q" ∧ OutsOrdinary c ∧ NoClash c ffx ["d_x"] := by
   refine ⟨⟨Limit.lintClean_of_checks c ⟨by decide, by decide, by decide⟩ (by decide) (by decide) (by decide),
     by decide, by decide, by decide, by decide, by decide, by decide, ?_⟩, by decide, by decide⟩
   intro x hx
@@ -348,7 +458,7 @@ end Ign
     is confused with the exposed pin `d.x` -/
 theorem sequential_unroll_sem_needs_hig :
     ∃ c bb n d q ignore afo initStr ru pfx ord uc ioMap v, OrdOK ord ∧ SeqGoodOrig c bb d q ∧ OutsOrdinary c ∧
-      NoClash c bb ∧ (∀ s, initStr = some s → s = "0" ∨ s = "1") ∧
+      NoClash c bb ignore ∧ (∀ s, initStr = some s → s = "0" ∨ s = "1") ∧
       Tx.sequentialUnroll c n d q ignore afo initStr [] ru pfx ord = .ok (uc, ioMap) ∧ Consistent uc v ∧
       ¬ IsRun c n d q initStr ioMap v :=
   ⟨Ign.c, Ign.ffx, 1, "d_x", "q", ["d_x"], false, none, true, "cg_unroll", id, Ign.uc, Ign.ioMap, Ign.v, ordOK_id,
@@ -357,7 +467,7 @@ theorem sequential_unroll_sem_needs_hig :
 /-- `sequential_unroll_complete` is false without `hig` -/
 theorem sequential_unroll_complete_needs_hig :
     ∃ c bb n d q ignore afo initStr ru pfx ord uc ioMap w, OrdOK ord ∧ SeqGoodOrig c bb d q ∧ OutsOrdinary c ∧
-      NoClash c bb ∧ (∀ s, initStr = some s → s = "0" ∨ s = "1") ∧
+      NoClash c bb ignore ∧ (∀ s, initStr = some s → s = "0" ∨ s = "1") ∧
       Tx.sequentialUnroll c n d q ignore afo initStr [] ru pfx ord = .ok (uc, ioMap) ∧ SeqRun c d q n w ∧
       (∀ s, initStr = some s → ∀ u ∈ c.bbs, w 0 (u.1 ++ "." ++ q) = (s == "1")) ∧
       ¬ IsShown c n d uc ioMap w :=
